@@ -8,10 +8,10 @@ Open Scope list_scope.
 Definition NoSpace (x : str) := Forall (fun c => Ascii.eqb c ch_space = false) x.
 
 Lemma key_fullname_inj c a b :
-  key_task c = KFullname -> NoSpace (fullname a) -> NoSpace (fullname b) ->
+  key_task c = KFullname -> key_opts c = OItems -> NoSpace (fullname a) -> NoSpace (fullname b) ->
   descr_key c a = descr_key c b -> fullname a = fullname b /\ t_opts a = t_opts b.
 Proof.
-  unfold descr_key. intros -> Ha Hb H. eapply app_sep_inj; eauto.
+  unfold descr_key. intros -> -> Ha Hb H. eapply app_sep_inj; eauto.
 Qed.
 
 Section Group.
@@ -19,6 +19,7 @@ Section Group.
   Variable info : J -> tinfo.
   Variable c : cfg.
   Hypothesis KF : key_task c = KFullname.
+  Hypothesis KO : key_opts c = OItems.
 
   Lemma group_same_key pending k j : In j (group_of c info pending k) -> descr_key c (info j) = k.
   Proof. unfold group_of. intros H. apply filter_In in H. destruct H as [_ H]. apply str_eqb_spec. exact H. Qed.
@@ -34,7 +35,22 @@ Section Group.
     assert (Hj' : In j (group_of c info pending k)) by (apply Sub; assumption).
     assert (Ph : In h pending) by (unfold group_of in Hh; apply filter_In in Hh; tauto).
     assert (Pj : In j pending) by (unfold group_of in Hj'; apply filter_In in Hj'; tauto).
-    apply (key_fullname_inj c (info h) (info j) KF (NS h Ph) (NS j Pj)).
+    apply (key_fullname_inj c (info h) (info j) KF KO (NS h Ph) (NS j Pj)).
+    rewrite (group_same_key _ _ _ Hh), (group_same_key _ _ _ Hj'). reflexivity.
+  Qed.
+
+  (** all jobs of one array have the same options as jobs[0], whose options the array is submitted with *)
+  Theorem group_same_options pending k group h rest j :
+    (forall x, In x pending -> NoSpace (fullname (info x))) ->
+    (forall x, In x group -> In x (group_of c info pending k)) -> group = h :: rest ->
+    In j group -> t_opts (info j) = t_opts (info h).
+  Proof.
+    intros NS Sub -> Hj.
+    assert (Hh : In h (group_of c info pending k)) by (apply Sub; left; reflexivity).
+    assert (Hj' : In j (group_of c info pending k)) by (apply Sub; assumption).
+    assert (Ph : In h pending) by (unfold group_of in Hh; apply filter_In in Hh; tauto).
+    assert (Pj : In j pending) by (unfold group_of in Hj'; apply filter_In in Hj'; tauto).
+    apply (key_fullname_inj c (info j) (info h) KF KO (NS j Pj) (NS h Ph)).
     rewrite (group_same_key _ _ _ Hh), (group_same_key _ _ _ Hj'). reflexivity.
   Qed.
 End Group.
@@ -73,7 +89,7 @@ Section GroupRun.
     intros NS Sub Hc jobs Ha Hj Hs He Hp Hb Hn fs.
     assert (Hx : In x group) by (eapply nth_error_In; eassumption).
     assert (Hne : group <> []) by (intro E; rewrite E in Hx; contradiction).
-    pose proof (group_own_task J info shipped eq_refl pending k group x NS Sub Hne Hx) as T.
+    pose proof (group_own_task J info shipped eq_refl eq_refl pending k group x NS Sub Hne Hx) as T.
     rewrite Hc in T. injection T as T.
     assert (Hn' : nth_error jobs i = Some (jb x)) by (unfold jobs; apply map_nth_error; assumption).
     pose proof (main_array V pbytes dump load (F cmd) valid tb_of RT prefix aid jobs nc envs fs0 inc before i (jb x)
@@ -88,8 +104,8 @@ End GroupRun.
     property: two tasks alpha.transform / beta.transform with equal options share an array whose
     command names alpha.transform. *)
 Module NameVariant.
-  Definition alpha : tinfo := {| t_ns := lit "alpha"; t_name := lit "transform"; t_opts := lit "[]" |}.
-  Definition beta : tinfo := {| t_ns := lit "beta"; t_name := lit "transform"; t_opts := lit "[]" |}.
+  Definition alpha : tinfo := {| t_ns := lit "alpha"; t_name := lit "transform"; t_opts := lit "[]"; t_optnames := lit "[]" |}.
+  Definition beta : tinfo := {| t_ns := lit "beta"; t_name := lit "transform"; t_opts := lit "[]"; t_optnames := lit "[]" |}.
   Definition pending := [alpha; beta].
   Definition k := descr_key (by_name shipped) alpha.
 
@@ -122,3 +138,19 @@ Module NameVariant.
        = CDone nat (Seq [Leaf 200; Leaf 2]).
   Proof. split; vm_compute; reflexivity. Qed.
 End NameVariant.
+
+(** Grouping by option NAMES only ([names_only], the variant `sorted(self.options)`): two jobs of one
+    task with memory=4 and memory=64 share an array, which is submitted with jobs[0]'s memory=4. *)
+Module NamesVariant.
+  Definition small : tinfo := {| t_ns := lit "lib"; t_name := lit "align"; t_opts := lit "[('memory', 4)]"; t_optnames := lit "['memory']" |}.
+  Definition big : tinfo := {| t_ns := lit "lib"; t_name := lit "align"; t_opts := lit "[('memory', 64)]"; t_optnames := lit "['memory']" |}.
+  Definition pending := [small; big].
+  Lemma refuted :
+    group_of (names_only shipped) (fun t => t) pending (descr_key (names_only shipped) small) = [small; big]
+    /\ t_opts big <> t_opts small.
+  Proof. split; [reflexivity|discriminate]. Qed.
+  Lemma shipped_separates :
+    group_of shipped (fun t => t) pending (descr_key shipped small) = [small]
+    /\ group_of shipped (fun t => t) pending (descr_key shipped big) = [big].
+  Proof. split; reflexivity. Qed.
+End NamesVariant.
